@@ -490,45 +490,57 @@ var _ = ssa.Function{}
 
 // adapterReplay runs a hand-written scenario adapter (a Go test kept under
 // /verif/adapters and injected by overlay) registered for this obligation.
-func (e *Engine) adapterReplay(verifDir string, o *Obl) (string, bool) {
+type adapterEntry struct{ Match, Dir, File, Test string }
+
+func loadAdapters(verifDir string) ([]adapterEntry, string) {
 	data, err := os.ReadFile(filepath.Join(verifDir, "adapters", "index.json"))
 	if err != nil {
 		data, err = os.ReadFile("/verif/adapters/index.json")
 		if err != nil {
-			return "", false
+			return nil, verifDir
 		}
 		verifDir = "/verif"
 	}
-	var entries []struct{ Match, Dir, File, Test string }
+	var entries []adapterEntry
 	if json.Unmarshal(data, &entries) != nil {
-		return "", false
+		return nil, verifDir
 	}
+	return entries, verifDir
+}
+
+// runAdapter injects the scenario test into the package by overlay and runs it
+// against the real code; reproduced means the test printed a REPRODUCED line.
+func (e *Engine) runAdapter(verifDir string, en adapterEntry) (string, bool) {
+	dir, _ := os.MkdirTemp("", "gvc-adapter-")
+	defer os.RemoveAll(dir)
+	pkgDir := filepath.Join(e.opts.RepoDir, en.Dir)
+	ov := map[string]interface{}{"Replace": map[string]string{filepath.Join(pkgDir, "zz_gvc_adapter_test.go"): filepath.Join(verifDir, "adapters", en.File)}}
+	ovData, _ := json.Marshal(ov)
+	ovFile := filepath.Join(dir, "overlay.json")
+	os.WriteFile(ovFile, ovData, 0o644)
+	ctx, cancel := context.WithTimeout(context.Background(), 150*time.Second)
+	defer cancel()
+	cmd := exec.CommandContext(ctx, "go", "test", "-overlay", ovFile, "-vet=off", "-count=1", "-v", "-timeout", "60s", "-run", "^"+en.Test+"$", ".")
+	cmd.Dir = pkgDir
+	cmd.Env = append(os.Environ(), "GOFLAGS=-mod=mod", "GOPROXY=off", "GOSUMDB=off", "GOTOOLCHAIN=local")
+	outB, _ := cmd.CombinedOutput()
+	out := string(outB)
+	rep := fmt.Sprintf("replay (scenario adapter %s/%s): cd %s && go test -overlay <zz_gvc_adapter_test.go -> %s> -vet=off -count=1 -timeout 60s -run '^%s$' .\n--- output ---\n%s\n",
+		en.File, en.Test, pkgDir, filepath.Join(verifDir, "adapters", en.File), en.Test, truncate(out, 3000))
+	for _, l := range strings.Split(out, "\n") {
+		if strings.HasPrefix(l, "REPRODUCED ") {
+			return rep + l + "\n", true
+		}
+	}
+	return rep + "NOT-REPRODUCED by the adapter\n", false
+}
+
+func (e *Engine) adapterReplay(verifDir string, o *Obl) (string, bool) {
+	entries, vd := loadAdapters(verifDir)
 	for _, en := range entries {
-		if !strings.Contains(o.Name, en.Match) {
-			continue
+		if strings.Contains(o.Name, en.Match) {
+			return e.runAdapter(vd, en)
 		}
-		dir, _ := os.MkdirTemp("", "gvc-adapter-")
-		defer os.RemoveAll(dir)
-		pkgDir := filepath.Join(e.opts.RepoDir, en.Dir)
-		ov := map[string]interface{}{"Replace": map[string]string{filepath.Join(pkgDir, "zz_gvc_adapter_test.go"): filepath.Join(verifDir, "adapters", en.File)}}
-		ovData, _ := json.Marshal(ov)
-		ovFile := filepath.Join(dir, "overlay.json")
-		os.WriteFile(ovFile, ovData, 0o644)
-		ctx, cancel := context.WithTimeout(context.Background(), 150*time.Second)
-		defer cancel()
-		cmd := exec.CommandContext(ctx, "go", "test", "-overlay", ovFile, "-vet=off", "-count=1", "-v", "-timeout", "60s", "-run", "^"+en.Test+"$", ".")
-		cmd.Dir = pkgDir
-		cmd.Env = append(os.Environ(), "GOFLAGS=-mod=mod", "GOPROXY=off", "GOSUMDB=off", "GOTOOLCHAIN=local")
-		outB, _ := cmd.CombinedOutput()
-		out := string(outB)
-		rep := fmt.Sprintf("replay (scenario adapter %s/%s): cd %s && go test -overlay <zz_gvc_adapter_test.go -> %s> -vet=off -count=1 -timeout 60s -run '^%s$' .\n--- output ---\n%s\n",
-			en.File, en.Test, pkgDir, filepath.Join(verifDir, "adapters", en.File), en.Test, truncate(out, 3000))
-		for _, l := range strings.Split(out, "\n") {
-			if strings.HasPrefix(l, "REPRODUCED ") {
-				return rep + l + "\n", true
-			}
-		}
-		return rep + "NOT-REPRODUCED by the adapter\n", false
 	}
 	return "", false
 }
